@@ -17,6 +17,9 @@ def gen_sources(rng, nmax=4, names=('TICK_A', 'TICK_B', 'TICK_C'), times_max=6, 
     out.append({'i': i, 'sig': rng.choice(names), 'kind': rng.choice(['fifo', 'lifo']), 'period': rng.choice(PERIODS),
                 'times': rng.randint(0 if allow_infinite else 1, times_max), 'deferred': rng.choice([True, False, None]),
                 'start_delay': rng.choice([0.0, 0.0, 0.003, 0.2])})
+    if out[-1]['times'] == 0 and rng.random() < 0.6:
+      # the documented heart-beat form: the repeat count is left out (or passed as None) - it defaults to 0 = until cancelled
+      out[-1]['omit_times'] = rng.choice(['omitted', 'None'])
     if zero_period and rng.random() < 0.02:
       # a LARGE repeat count (beyond CPython's small-integer cache), all postings at once or 1 ms apart
       out[-1]['times'] = rng.choice([257, 258, 300])
@@ -82,6 +85,10 @@ def start_source(ao, run, src):
   src['event'] = ev
   post = ao.post_fifo if src['kind'] == 'fifo' else ao.post_lifo
   kw = {'period': src['period'], 'times': src['times']}
+  if src.get('omit_times') == 'omitted' and src['times'] == 0:
+    del kw['times']
+  elif src.get('omit_times') == 'None' and src['times'] == 0:
+    kw['times'] = None
   if src['deferred'] is not None:
     kw['deferred'] = src['deferred']
   run.t0[src['i']] = ds.S.clock
